@@ -693,6 +693,69 @@ class Inliner:
         ast.fix_missing_locations(s)
         return pre_all + [s]
 
+    def _expand_ctxmgr(self, s: ast.stmt, cls, caller_q) -> Optional[List[ast.stmt]]:
+        """`with helper(a) [as x]: BODY` where `helper` is a new @contextmanager generator with one statement-level
+        yield (plain, or inside a try/finally):  its set-up, BODY and its tear-down are spliced together."""
+        if not (isinstance(s, ast.With) and len(s.items) == 1 and isinstance(s.items[0].context_expr, ast.Call)):
+            return None
+        call = s.items[0].context_expr
+        t = self._target(call, cls)
+        if t is None:
+            return None
+        q, inf, is_m = t
+        fn = inf.node
+        decos = [d for d in fn.decorator_list]
+        if not (len(decos) == 1 and ((isinstance(decos[0], ast.Name) and decos[0].id == "contextmanager") or (isinstance(decos[0], ast.Attribute) and decos[0].attr == "contextmanager"))):
+            return None
+        if q == caller_q or any(isinstance(x, (ast.Nonlocal, ast.Global)) for x in _walk_own(fn)):
+            return None
+        ys = [x for x in _walk_own(fn) if isinstance(x, (ast.Yield, ast.YieldFrom))]
+        if len(ys) != 1 or not isinstance(ys[0], ast.Yield):
+            return None
+        try:
+            mapping, pre = _bind(call, inf, is_m)
+        except _CannotInline:
+            return None
+        mapping = self._local_renames(inf, mapping, pre)
+        body = [copy.deepcopy(x) for x in fn.body]
+        if body and isinstance(body[0], ast.Expr) and isinstance(body[0].value, ast.Constant) and isinstance(body[0].value.value, str):
+            body = body[1:]
+        ren = _Renamer(mapping)
+        pre = [ast.Assign(targets=[ren.visit(copy.deepcopy(tg)) for tg in x.targets], value=x.value, type_comment=None) for x in pre]
+        body = [ren.visit(x) for x in body]
+
+        def is_yield_stmt(st):
+            return isinstance(st, ast.Expr) and isinstance(st.value, ast.Yield)
+
+        def bind_stmts(st) -> List[ast.stmt]:
+            tgt = s.items[0].optional_vars
+            if tgt is None:
+                return []
+            v = st.value.value if st.value.value is not None else ast.Constant(value=None)
+            return [ast.Assign(targets=[copy.deepcopy(tgt)], value=v, type_comment=None)]
+
+        out: Optional[List[ast.stmt]] = None
+        for i, st in enumerate(body):
+            if is_yield_stmt(st):
+                out = body[:i] + bind_stmts(st) + [copy.deepcopy(b) for b in s.body] + body[i + 1:]
+                break
+            if isinstance(st, ast.Try) and not st.handlers and not st.orelse:
+                for j, st2 in enumerate(st.body):
+                    if is_yield_stmt(st2):
+                        st.body = st.body[:j] + bind_stmts(st2) + [copy.deepcopy(b) for b in s.body] + st.body[j + 1:]
+                        out = body
+                        break
+                if out is not None:
+                    break
+        if out is None:
+            return None
+        self.done.append(f"{q} (context manager) -> {caller_q}")
+        out = pre + out
+        for x in out:
+            ast.copy_location(x, s)
+            ast.fix_missing_locations(x)
+        return out or [ast.Pass()]
+
     _GEN_CONSUMERS = ("sorted", "list", "set", "tuple", "frozenset", "dict", "sum", "max", "min", "any", "all")
 
     def _hoist_consumed_gen(self, s: ast.stmt, cls, caller_q) -> Optional[List[ast.stmt]]:
@@ -732,6 +795,9 @@ class Inliner:
         return rep + [s]
 
     def _rewrite_stmt(self, s: ast.stmt, cls, caller_q) -> Optional[List[ast.stmt]]:  # noqa: C901
+        rep = self._expand_ctxmgr(s, cls, caller_q)
+        if rep is not None:
+            return rep
         rep = self._hoist_consumed_gen(s, cls, caller_q)
         if rep is not None:
             return rep
